@@ -18,7 +18,6 @@ package main
 // with the pool's own variable. Names are unique per case (`nm`), so cases running in one process do not meet.
 
 import (
-	"fmt"
 	"sort"
 	"strings"
 	"sync"
@@ -58,14 +57,24 @@ type poolsPool struct {
 }
 
 func (p *poolsPool) shoot() (string, string) {
-	a, ok, hang := p.m.Acquire(5 * time.Second)
-	if hang || !ok {
-		return "", fmt.Sprintf("acquire=failed ok=%v hang=%v", ok, hang)
+	a, ok, hang := p.m.Acquire(20 * time.Second)
+	if hang {
+		// a provider goroutine that did not get the CPU for five seconds (loaded machine): inconclusive, not a verdict
+		return "", "ENV acquire timed out"
+	}
+	if !ok {
+		return "", "acquire=failed ok=false"
 	}
 	before := len(p.t.echoList())
 	p.m.Guns[0].Shoot(a)
 	p.m.Provider.Release(a)
-	return strings.Join(p.t.echoList()[before:], "/"), ""
+	got := p.t.echoList()[before:]
+	if len(got) != 2 {
+		// a request that did not reach the pool's target (gun timeout on a loaded machine): inconclusive — the case is about
+		// WHAT a pool sends, not whether the loopback connection was served in time
+		return "", "ENV shot not served"
+	}
+	return strings.Join(got, "/"), ""
 }
 
 func runPools(kv map[string]string) string {
